@@ -17,6 +17,28 @@ Ltac snorm := repeat rewrite sapp_assoc; cbn [String.append].
 (** ... and of conjunctions with constant members. *)
 Ltac bnorm := repeat (rewrite andb_false_r || rewrite andb_false_l || rewrite andb_true_r || rewrite andb_true_l).
 
+(** ** The names of the per-field helpers: functions of the FIELD NAME only.
+    [Converter._get_global_name] is translated with the state an earlier call may have left in
+    the Converter instance ([memo]); the name must not depend on it. *)
+Lemma tie_helper_names : forall n memo,
+  fst (t_name_converter memo n) = helper_name RConverter n /\
+  t_name_factory n = helper_name RFactory n /\
+  t_name_validator n = helper_name RValidator n /\
+  t_name_field n = helper_name RField n /\
+  t_name_key_eq n = helper_name RKey n /\
+  t_name_key_hash n = helper_name RKey n /\
+  t_name_repr n = helper_name RRepr n.
+Proof.
+  intros n memo. unfold t_name_converter, t_name_factory, t_name_validator, t_name_field, t_name_key_eq,
+    t_name_key_hash, t_name_repr.
+  repeat split; try (destruct memo); cbn [fst helper_name]; snorm; reflexivity.
+Qed.
+
+(** ... i.e. the translated method is the model's [current_naming] as far as names go. *)
+Lemma tie_converter_naming : forall memo n,
+  fst (t_name_converter memo n) = fst (current_naming memo n).
+Proof. intros. now destruct (tie_helper_names n memo) as [H _]. Qed.
+
 (** ** [_generate_unique_filename] *)
 Lemma tie_unique_filename : forall func_name module qualname name,
   t_unique_filename func_name module qualname name = unique_filename func_name module qualname.
